@@ -74,26 +74,31 @@ RetN == Ret(<<Item(Var("n"), "")>>)
 RetNP == Ret(<<Item(Var("n"), ""), Item(np, "")>>)
 
 \* stage 1: single node scan: labels, inline properties, WHERE (three-valued logic), RETURN
-Preds ==
+Preds1 ==
     {Cmp("=", np, Lit(v)) : v \in Lits}
     \cup {Cmp(op, np, Lit(VInt(2))) : op \in {"<>", "<", "<=", ">", ">="}}
-    \cup {Cmp("<", np, Lit(VStr("a"))), Cmp(">", Lit(VFlt(4)), np), Cmp("=", np, nq), Cmp("<", np, nq), Cmp("<>", np, nq)}
+    \cup {Cmp("<", np, Lit(VStr("a"))), Cmp(">", Lit(VFlt(4)), np), Cmp("<=", Lit(VBool(TRUE)), np)}
     \cup {IsNullX(np), NotNullX(np), Not(Cmp("=", np, Lit(VInt(2)))), Not(Cmp("<", np, Lit(VInt(2)))), Not(IsNullX(np))}
-    \cup {And(Cmp("=", np, Lit(VInt(2))), Cmp("=", nq, Lit(VInt(1)))), Or(Cmp("=", np, Lit(VInt(2))), Cmp("=", nq, Lit(VInt(1)))),
-          Or(Cmp("<", np, Lit(VInt(2))), IsNullX(nq)), And(Not(Cmp("=", np, Lit(VInt(1)))), NotNullX(nq)),
-          Xor(Cmp("=", np, Lit(VInt(2))), Cmp("=", nq, Lit(VInt(1)))),
-          np, Not(np),
+    \cup {np, Not(np),
           InX(np, ListX(<<Lit(VInt(1)), Lit(VFlt(4))>>)), InX(np, ListX(<<Lit(VInt(1)), Lit(VNull)>>)), InX(np, ListX(<<>>)),
           Not(InX(np, ListX(<<Lit(VInt(2)), Lit(VStr("a"))>>))),
-          Lit(VBool(TRUE)), Lit(VBool(FALSE)), Lit(VNull), Cmp("=", Lit(VInt(2)), Lit(VFlt(4)))}
+          Lit(VBool(TRUE)), Lit(VBool(FALSE)), Lit(VNull), Cmp("=", Lit(VInt(2)), Lit(VFlt(4))),
+          Or(Cmp("=", np, Lit(VInt(1))), Cmp("=", np, Lit(VStr("a")))), And(Cmp(">=", np, Lit(VInt(1))), Cmp("<", np, Lit(VFlt(4)))),
+          And(Cmp("<", np, Lit(VInt(2))), Lit(VNull)), Or(Cmp("<", np, Lit(VInt(2))), Lit(VNull))}
+Preds2 ==
+    {Cmp("=", np, nq), Cmp("<", np, nq), Cmp("<>", np, nq),
+     And(Cmp("=", np, Lit(VInt(2))), Cmp("=", nq, Lit(VInt(1)))), Or(Cmp("=", np, Lit(VInt(2))), Cmp("=", nq, Lit(VInt(1)))),
+     Or(Cmp("<", np, Lit(VInt(2))), IsNullX(nq)), And(Not(Cmp("=", np, Lit(VInt(1)))), NotNullX(nq)),
+     Xor(Cmp("=", np, Lit(VInt(2))), Cmp("=", nq, Lit(VInt(1)))), Not(Or(Cmp("=", np, nq), IsNullX(nq))),
+     And(Cmp("=", np, Lit(VInt(2))), Cmp("<", nq, Lit(VStr("a")))), Or(IsNullX(np), Cmp(">", nq, np))}
 FamScanL ==
     {Q1(<<Match(<<Path0(NP("n", ls, <<>>))>>, NoX), RetN>>) : ls \in AllLabelSeqs}
     \cup {Q1(<<Match(<<Path0(NP("n", ls, <<KV("p", VInt(1))>>))>>, NoX), RetN>>) : ls \in AllLabelSeqs}
     \cup {Q1(<<Match(<<Path0(NP("n", ls, <<>>))>>, Cmp("=", np, Lit(VInt(1)))), RetNP>>) : ls \in AllLabelSeqs}
     \cup {Q1(<<Match(<<Path0(NP("n", ls, <<>>))>>, NoX), Ret(<<Item(Agg("count", Var("n"), FALSE), "c")>>)>>) : ls \in AllLabelSeqs}
     \cup {Q1(<<Match(<<Path0(NP("n", ls, <<>>))>>, NoX), Ret(<<Item(CStar, "c")>>)>>) : ls \in AllLabelSeqs}
-FamScanW ==
-    {Q1(<<Match(<<Path0(NP("n", ls, <<>>))>>, w), RetNP>>) : ls \in {<<>>, <<"A">>}, w \in Preds}
+FamScanW1 == {Q1(<<Match(<<Path0(NP("n", <<"A">>, <<>>))>>, w), RetNP>>) : w \in Preds1}
+FamScanW2 == {Q1(<<Match(<<Path0(NP("n", <<>>, <<>>))>>, w), Ret(<<Item(Var("n"), ""), Item(np, ""), Item(nq, "")>>)>>) : w \in Preds2}
 FamScanI ==
     {Q1(<<Match(<<Path0(NP("n", ls, <<KV("p", v)>>))>>, NoX), RetNP>>) : ls \in {<<>>, <<"A">>}, v \in Lits}
     \cup {Q1(<<Match(<<Path0(NP("n", <<>>, <<KV("p", VInt(2)), KV("q", VInt(1))>>))>>, NoX), RetNP>>)}
@@ -288,7 +293,8 @@ FamShort ==
 
 Fam(g) ==
     CASE Family = "scanL" -> FamScanL
-      [] Family = "scanW" -> FamScanW
+      [] Family = "scanW1" -> FamScanW1
+      [] Family = "scanW2" -> FamScanW2
       [] Family = "scanI" -> FamScanI
       [] Family = "hopD" -> FamHopD
       [] Family = "hopP" -> FamHopP
